@@ -5,7 +5,7 @@
 From Coq Require Export List NArith ZArith Arith Lia Bool.
 Export ListNotations.
 
-Definition str := list N.
+Notation str := (list N) (only parsing).
 
 Fixpoint streqb (a b : str) : bool :=
   match a, b with
@@ -14,7 +14,7 @@ Fixpoint streqb (a b : str) : bool :=
   | _, _ => false
   end.
 Definition mems (x:str) (l:list str) : bool := existsb (streqb x) l.
-Fixpoint startswith (k p : str) : bool :=          (* k.startswith(p) *)
+Fixpoint startswith (k p : str) {struct p} : bool :=          (* k.startswith(p) *)
   match p, k with
   | [], _ => true
   | c :: p', d :: k' => N.eqb c d && startswith k' p'
@@ -109,19 +109,19 @@ Fixpoint lookup {A} (k:str) (l:list (str * A)) : option A :=
   match l with [] => None | (k', v) :: l' => if streqb k k' then Some v else lookup k l' end.
 
 (* _map_branch_labels, over the labelled revisions in the observed set order *)
+Fixpoint add_labels (x:str) (ls:list str) (keys:list (str*str)) : res (list (str*str)) :=
+  match ls with
+  | [] => Ok keys
+  | l :: ls' => match lookup l keys with
+                | Some _ => Err ERevision                      (* "Branch name ... already used by revision" *)
+                | None => add_labels x ls' (keys ++ [(l, x)])
+                end
+  end.
 Fixpoint map_branch_labels (G:list srev) (order:list str) (keys:list (str*str)) : res (list (str*str)) :=
   match order with
   | [] => Ok keys
   | x :: rest =>
-      let fix add (ls:list str) (keys:list (str*str)) : res (list (str*str)) :=
-        match ls with
-        | [] => Ok keys
-        | l :: ls' => match lookup l keys with
-                      | Some _ => Err ERevision                      (* "Branch name ... already used by revision" *)
-                      | None => add ls' (keys ++ [(l, x)])
-                      end
-        end in
-      keys' <- add (match find_rev G x with Some r => s_labels r | None => [] end) keys ;;
+      keys' <- add_labels x (match find_rev G x with Some r => s_labels r | None => [] end) keys ;;
       map_branch_labels G rest keys'
   end.
 
@@ -574,7 +574,9 @@ Definition parse_downgrade_target (M:rmap) (cur:list str) (s:str) (arl:bool) : r
 Inductive outcome := OK (lbl:option str) (l:list elem) | Fail (e:xerr).
 Record obs := mkObs { o_revs : outcome; o_rev : outcome; o_num : outcome; o_up : outcome; o_down : outcome }.
 Record c16_in := mkIn { i_revs : list srev; i_oracle : list (str*str); i_cur : list str; i_queries : list str }.
-Definition c16_out := list obs.
+(* what is observed of one case: Revision.branch_labels of every revision after _add_branches (load order; empty when the
+   history does not load) and one observation per identifier string *)
+Record c16_out := mkOut { c_labels : list (str * list str); c_obs : list obs }.
 
 Definition observe {A} (r:res A) (f:A -> outcome) : outcome :=
   match r with Ok a => f a | Err e => Fail (catch_revision_errors e) end.
@@ -600,4 +602,6 @@ Definition load_in (i:c16_in) : res rmap :=
   | r => r
   end.
 
-Definition run (i:c16_in) : c16_out := map (run_query (load_in i) (i_cur i)) (i_queries i).
+Definition run (i:c16_in) : c16_out :=
+  mkOut (match load_in i with Ok M => m_blabels M | Err _ => [] end)
+        (map (run_query (load_in i) (i_cur i)) (i_queries i)).
